@@ -47,7 +47,8 @@ def gen_history(rng, max_len):
   spread = rng.choice([1, 2, 3, 10, 1000])      # small spread = heavy ties
   n = rng.randint(0, max_len)
   # items: objects ordered by key only (distinct objects can tie), or plain ints (equal pushes are `==`)
-  ops = [('new', size, rng.choice(['obj', 'obj', 'int']))]
+  # keys: small ints, or a mixture of types that cannot be compared with each other ("any keys")
+  ops = [('new', size, rng.choice(['obj', 'obj', 'int']), rng.choice(['int', 'int', 'mixed']))]
   for i in range(n):
     r = rng.random()
     if r < 0.15:
@@ -68,15 +69,19 @@ def run_real(ops):
     if op[0] == 'new':
       size = op[1]
       kind = op[2] if len(op) > 2 else 'obj'
+      mixed = len(op) > 3 and op[3] == 'mixed'
+      spell = (lambda k: (f'key{k}' if k % 3 == 0 else (k + 0.5 if k % 3 == 1 else k))) if mixed else (lambda k: k)
+      unspell = {}
       h = heapdict.HeapDict(size)
       pushed = {}
     elif op[0] == 'push':
       it = Item(op[2], op[3]) if kind == 'obj' else IntItem(op[2])
-      h.push(op[1], it)
+      unspell[spell(op[1])] = op[1]
+      h.push(spell(op[1]), it)
       pushed.setdefault(op[1], []).append(it)
     else:
       res = h.get_result()
-      outs.append(([(k, [it.key for it in q]) for k, q in res.items()],
+      outs.append(([(unspell[k], [it.key for it in q]) for k, q in res.items()],
                    {k: list(v) for k, v in pushed.items()}, size))
       # a caller scribbling on the returned lists must not disturb the container
       for q in res.values():
